@@ -223,6 +223,10 @@ pub struct GPlan {
     pub emitters: Vec<u32>,
     /// installers start after this many scheduling points of idling (lets emitters go first)
     pub installer_delay: u32,
+    /// per emitter thread: scheduling points it first spends inside a local-recorder scope (0 =
+    /// no scope); the install may happen while the scope is open
+    #[serde(default)]
+    pub scoped: Vec<u32>,
 }
 
 pub struct C02Global;
@@ -237,7 +241,7 @@ impl Scenario for C02Global {
     }
     fn plan(&self, r: &mut Rng, _tier: Tier) -> GPlan {
         let n = r.range(1, 3) as usize;
-        GPlan { installers: r.range(1, 3) as u32, emitters: (0..n).map(|_| r.range(1, 5) as u32).collect(), installer_delay: r.below(4) as u32 }
+        GPlan { installers: r.range(1, 3) as u32, emitters: (0..n).map(|_| r.range(1, 5) as u32).collect(), installer_delay: r.below(4) as u32, scoped: (0..n).map(|_| if r.chance(350) { r.range(1, 6) as u32 } else { 0 }).collect() }
     }
     fn horizon(&self) -> u64 {
         60
@@ -285,7 +289,27 @@ impl Scenario for C02Global {
                 let obs = obs2.clone();
                 let log = log2.clone();
                 let n = *n;
+                let scoped = p.scoped.get(e).copied().unwrap_or(0);
+                let local_shared = Shared::new(log2.clone());
                 hs.push(dsim::spawn(&format!("emitter{}", e), move || {
+                    if scoped > 0 {
+                        // a local scope that may span the global install: inside it emissions go to
+                        // the local recorder; once it is closed the thread is back on the global path
+                        let local = LogRecorder::new(1000 + e as u32, local_shared.clone());
+                        let before = log.lock().unwrap().len();
+                        metrics::with_local_recorder(&local, || {
+                            for _ in 0..scoped {
+                                dsim::point("c02g.in_scope");
+                            }
+                            metrics::counter!("c02_scoped").increment(1);
+                        });
+                        let me = dsim::tid();
+                        let l = log.lock().unwrap();
+                        let mine: Vec<u32> = l[before..].iter().filter(|ev| ev.tid == me && ev.op.starts_with("register")).map(|ev| ev.rec).collect();
+                        if mine != vec![1000 + e as u32] {
+                            obs.lock().unwrap().errors.push(("scoped-emission-misdirected".into(), format!("emission inside a local scope of emitter {} reached recorders {:?}", e, mine)));
+                        }
+                    }
                     for k in 0..n {
                         dsim::point("c02g.emit.begin");
                         let me = dsim::tid();
@@ -397,11 +421,21 @@ impl Scenario for C02Global {
                 v.push(q);
             } else if q.emitters.len() > 1 {
                 q.emitters.remove(i);
+                if i < q.scoped.len() {
+                    q.scoped.remove(i);
+                }
                 v.push(q);
             }
         }
         if p.installer_delay > 0 {
             v.push(GPlan { installer_delay: p.installer_delay - 1, ..p.clone() });
+        }
+        for i in 0..p.scoped.len() {
+            if p.scoped[i] > 0 {
+                let mut q = p.clone();
+                q.scoped[i] -= 1;
+                v.push(q);
+            }
         }
         v
     }
